@@ -290,7 +290,8 @@ CODE_TEXT = {1: "a built set does not denote exactly the members it was given (a
              3: "the implementation panics while building a value",
              4: "Go type / Count() / members differ from the transcribed builder (Rep/Builder.v construct)",
              5: "panic on one side only (implementation vs Rep/Builder.v construct)",
-             6: "Equal() differs from the transcribed Equal methods (Rep/Builder.v rep_equal)"}
+             6: "Equal() differs from the transcribed Equal methods (Rep/Builder.v rep_equal)",
+             7: "outside every finding region the transcribed Equal identifies two components of a built set that denote different values: the hypothesis equal_sound_on of C02_builder_denotes_members does not hold on this input"}
 
 
 def run_part(run, vh, rng, tier, replay_case=None):
